@@ -26,6 +26,9 @@ for d in sorted(glob.glob(HERE + '/seeded/*/')):
         caught = any(l.startswith('VIOLATION') for l in r.stdout.splitlines())
         res.append((sid, prop, ('CAUGHT' if caught else 'MISSED') + ' exit=%d %.0fs' % (r.returncode, time.time() - t0)))
         print(res[-1], flush=True)
+        if not caught and r.returncode != 0:
+            # not a clean miss: keep what the check said (build trouble, harness trouble)
+            print('    | ' + '\n    | '.join(l[:300] for l in r.stdout.splitlines()[-12:] if not l.startswith('KNOWN-FINDING')), flush=True)
 print('\n== summary: %d caught, %d not' % (sum('CAUGHT' in r[2] for r in res), sum('CAUGHT' not in r[2] for r in res)))
 for r in res:
     if 'CAUGHT' not in r[2]: print(r)
